@@ -58,6 +58,10 @@ KNOWN = {
 # same families as the known findings, other inputs: these must pass
 FAMILY = [
     ("insert into t select bar.a from bar", "ansi"),
+    # a derived table / CTE column that nobody reads outside: a path that ends in a sub-query exists but is not a default answer
+    ("insert into t select sq.a from (select a, b from src) sq", "ansi"),
+    ("insert into t select sq.a from (select a, b from src) sq", "non-validating"),
+    ("insert into t with c as (select a, b from src) select c.a from c", "ansi"),
     ("insert into t select a, (select max(x) from s) as m from s", "ansi"),
     ("INSERT INTO tab1 SELECT a FROM tab2; ALTER TABLE tab9 RENAME TO tab3;", "ansi"),
 ]
@@ -70,10 +74,16 @@ KNOWN_FILES = {("sqllineage/data/tpcds/query49.sql", "non-validating"): "D28"}
 def check(sql, dialect):
     """returns a list of (clause, detail) violated by the analysis result of one input"""
     r = LineageRunner(sql, dialect=dialect)
+    # the clauses are about the DEFAULT answer, whatever was asked of the same runner before: ask for the paths that end in
+    # sub-queries first, and compare the default answer with the one a fresh runner gives
+    r.get_column_lineage(exclude_path_ending_in_subquery=False)
     paths = r.get_column_lineage()
     holder = r._sql_holder
     g = holder.graph
     bad = []
+    fresh = LineageRunner(sql, dialect=dialect).get_column_lineage()
+    if [tuple(map(str, p)) for p in fresh] != [tuple(map(str, p)) for p in paths]:
+        bad.append(("default_paths_do_not_depend_on_earlier_calls_with_other_flags", f"{len(paths)} paths after a call with exclude_path_ending_in_subquery=False, {len(fresh)} on a fresh runner"))
     src_t, tgt_t, mid_t = set(r.source_tables), set(r.target_tables), set(r.intermediate_tables)
     tg = holder.table_lineage_graph
     cols = [n for n in g.nodes if isinstance(n, Column)]
